@@ -168,7 +168,13 @@ class Acc:
         self.truncated |= other.truncated
         self.errors.extend(other.errors)
         for k, v in other.extra.items():
-            if isinstance(v, (int, float)) and isinstance(self.extra.get(k, 0), (int, float)):
+            if k == "slowest_case_s":
+                if v > self.extra.get(k, 0):
+                    self.extra[k] = v
+                    self.extra["slowest_case"] = other.extra.get("slowest_case")
+            elif k == "slowest_case":
+                pass
+            elif isinstance(v, (int, float)) and isinstance(self.extra.get(k, 0), (int, float)):
                 self.extra[k] = self.extra.get(k, 0) + v
             elif isinstance(v, dict):
                 d = self.extra.setdefault(k, {})
@@ -225,7 +231,12 @@ def hyp_run(
         if budget_s is not None and time.monotonic() - t0 > budget_s:
             acc.truncated = True
             return
+        t1 = time.monotonic()
         acc.observe(case, safe_body(case))
+        dt = time.monotonic() - t1
+        if dt > acc.extra.get("slowest_case_s", 0):
+            acc.extra["slowest_case_s"] = round(dt, 2)
+            acc.extra["slowest_case"] = case
 
     phase_a()
 
